@@ -92,12 +92,15 @@ def bed_rest(k):
 
 
 def write_inputs(d, kind, items, tag):
+    """chromosome sizes differ: the first chromosome is exactly as long as its data (so later chromosomes have
+    records beyond the first one's length), chromosome c has c spare bases"""
     nch = max(it[0] for it in items)
-    size = max(it[2] for it in items) + 10
+    szs = {c: max([it[2] for it in items if it[0] == c] + [1]) + (0 if c == 1 else c) for c in range(1, nch + 1)}
+    size = szs
     sizes = os.path.join(d, "chrom_%s.sizes" % tag)
     with open(sizes, "w") as f:
         for c in range(1, nch + 1):
-            f.write("%s\t%d\n" % (chrom_name(c), size))
+            f.write("%s\t%d\n" % (chrom_name(c), szs[c]))
     path = os.path.join(d, "in_%s.%s" % (tag, "bedGraph" if kind == "bw" else "bed"))
     with open(path, "w") as f:
         for it in items:
@@ -180,7 +183,7 @@ def c16_case(tdir, d, k, b):
             os.remove(p)
         except OSError:
             pass
-    return {"cfg": cfg, "path": b["path"], "items": items, "rc": rc_, "rs": rs_, "re": re_, "size": size, "obs": obs, "argv1": a1[3:], "argv2": a2[2:]}
+    return {"cfg": cfg, "path": b["path"], "items": items, "rc": rc_, "rs": rs_, "re": re_, "size": size[rc_], "obs": obs, "argv1": a1[3:], "argv2": a2[2:]}
 
 
 def run_parallel(fn, jobs, workers=8):
@@ -451,8 +454,8 @@ def merge_case(tdir, d, k, b):
     ext = {"bw": "bw", "bigWig": "bigWig", "bedGraph": "bedGraph"}.get(outkind, "out")
     out = os.path.join(d, "merged_%s.%s" % (tag, ext))
     args = [out]
-    for bw in bws:
-        args += ["-b", bw]
+    for bw, m in zip(bws, b.get("mult") or [1] * len(bws)):
+        args += ["-b", bw] * m
     if outkind == "type-bigwig":
         args += ["--output-type", "bigwig"]
     if outkind == "type-BedGraph":
@@ -506,7 +509,8 @@ def merge_tool_part(run):
     if len(beh) < 200:
         raise ToolError("vacuity: %d merge tool configurations" % len(beh))
     if not run.thorough:
-        beh = beh[run.seed % 3::3]
+        many = [b for b in beh if max(b["mult"]) > 1]
+        beh = [b for b in beh if max(b["mult"]) == 1][run.seed % 3::3] + many[run.seed % 6::6]
     tdir = tools_dir()
     d = os.path.join(run.wd, "mfiles")
     os.makedirs(d, exist_ok=True)
@@ -521,8 +525,9 @@ def merge_tool_part(run):
     for i, tag in bad:
         tags[tag] = tags.get(tag, 0) + 1
         o = obs[i]
-        run.violation("C15 merge tool %s: ds=%s argv=%s -> %s" % (tag, o["ds"], o["argv"], json.dumps(o["obs"])[:300]),
-                      {"kind": "cli15", "tag": tag, "case": {k: o[k] for k in o if k != "obs"}, "obs": o["obs"]})
+        opts = [a for a in o["argv"] if a != "-b" and not a.endswith(".bw")]
+        run.violation("C15 merge tool %s: ds=%s inputs x %s options=%s -> %s" % (tag, o["ds"], o.get("mult"), opts, json.dumps(o["obs"])[:300]),
+                      {"kind": "cli15", "tag": tag, "case": {k: o[k] for k in o if k not in ("obs", "argv")}, "options": opts, "obs": o["obs"]})
     if tags:
         log("[C15] merge tool failing observations by tag: %s" % tags)
     run.sample({k: obs[0][k] for k in ("ds", "argv", "obs")})
